@@ -34,6 +34,15 @@ What this file offers (nothing here imports a property driver; it only imports a
                                  base, base+1, ... in slot order (so that model and implementation start from
                                  the same separated state).
 
+* ``apply_mutation`` / ``apply_select`` / ``apply_score``  operations of the evolutionary loop on real agents with the
+                                 random choices forced (mutation kind) or scripted (tournament draws).
+* ``Tables``, ``coq_world``, ``coq_obs``, ``coq_registry``, ``coq_agent``  emission of a case as Coq terms for
+                                 ``Evo.world`` / ``EvoCheck.obs`` (see harness/c01.py ``coq_term`` for the op list).
+
+How a property driver uses it (see harness/c01.py): build a population with ``build_agent`` (one shared net_config /
+hp_config object), ``registry_plus(pop[0])``, then after every operation ``snapshot(pop)``; emit
+``check_run (coq_world first_snapshot) [ops] [coq_obs snapshot ...]`` (coq/theories/Evo/EvoCheck.v).
+
 Slot order (the order of ``slots`` and of ``Evo.agent_locs`` in Coq MUST agree):
   for every network attribute in registry order (eval then its shared nets, group by group):
       enc cells, head cells, henc cells, (const: none), cfg cells, buf cells
@@ -115,7 +124,7 @@ def net_config_for(kind, family):
         enc = {k: v for k, v in enc.items() if k != "init_dicts"}
     cfg = {"encoder_config": enc}
     if kind == "full":
-        cfg["head_config"] = {"hidden_size": [5]}
+        cfg["head_config"] = {"hidden_size": [16]}
         cfg["latent_dim"] = 8
     return cfg
 
@@ -367,8 +376,12 @@ def _net_slots(prefix, obj):
                 if isinstance(v, torch.Tensor) and id(v) not in seen and v.numel() > 0:
                     seen.add(id(v))
                     hid.append((f"{tag}.{mn + '.' if mn else ''}{an}", v))
+        # only list objects that persist between two reads of init_dict are mutable state of the network (a list that
+        # is re-created on every read cannot be shared; its id() may even be recycled)
+        again = {pth: id(l2) for pth, l2 in _cfg_lists(m.init_dict)}
         for path, lst in _cfg_lists(m.init_dict):
-            cfg.append((f"{tag}.init_dict.{path}", lst))
+            if again.get(path) == id(lst):
+                cfg.append((f"{tag}.init_dict.{path}", lst))
     return enc, head, hid, cfg, buf
 
 
@@ -544,7 +557,13 @@ def structure(agent):
     for n in list(hps):
         v = hps[n]
         hps[n] = float(v) if isinstance(v, (int, float, np.integer, np.floating)) else str(v)
-    return {"nets": nets, "opts": opts, "hps": hps, "index": int(a.index), "mut": a.mut if a.mut is None else str(a.mut),
+    scalars = {}
+    for n, v in sorted(EvolvableAlgorithm.inspect_attributes(a).items()):
+        if n in ("index", "mut", "training"):
+            continue
+        if isinstance(v, (bool, int, float, str, np.integer, np.floating)) or v is None:
+            scalars[n] = v if isinstance(v, (bool, str)) or v is None else float(v)
+    return {"nets": nets, "opts": opts, "hps": hps, "scalars": scalars, "index": int(a.index), "mut": a.mut if a.mut is None else str(a.mut),
             "books": {n: _jsonable(getattr(a, n)) for n in ("scores", "fitness", "steps")}}
 
 
